@@ -46,6 +46,14 @@ func init() { props["C09"] = runC09 }
 
 var c09Watchdog = 4 * time.Second
 
+// c09After returns a channel that is CLOSED after d (unlike time.After it stays readable, so one watchdog
+// can bound a whole loop of waits).
+func c09After(d time.Duration) <-chan struct{} {
+	ch := make(chan struct{})
+	time.AfterFunc(d, func() { close(ch) })
+	return ch
+}
+
 // ---------- a scripted net.Conn: writes are recorded and never block (a half-open peer whose window is
 // not full), reads block until the script delivers bytes, an error, or the conn is closed ----------
 type c09Script struct {
@@ -589,8 +597,8 @@ func c09OpApplicable(k c09OpCase) bool {
 	if k.pt == 6 && (!udpLike || k.op > 2) {
 		return false
 	}
-	if k.pt == 3 && k.op != 0 {
-		return false
+	if k.pt == 3 && (k.op != 0 || !udpLike) {
+		return false // on tcp block-wise is negotiated by the peer's CSM, which the scripted peer does not send
 	}
 	if (k.pt == 4 || k.pt == 5) && k.op > 2 {
 		return false
@@ -761,7 +769,7 @@ func runC09Op(k c09OpCase, seed uint64) (bool, int, error) {
 	}
 	if !reached {
 		if ret, cls, _ := early(); ret {
-			return ret, cls, nil
+			return false, 0, fmt.Errorf("setup: the operation ended (error class %d) before its interruption point", cls)
 		}
 		return false, 0, errors.New("setup: interruption point not reached")
 	}
@@ -769,7 +777,7 @@ func runC09Op(k c09OpCase, seed uint64) (bool, int, error) {
 		c.misbehave(k.peer, rng)
 		fire()
 	}
-	wd := time.After(c09Watchdog)
+	wd := c09After(c09Watchdog)
 	tick := time.NewTicker(500 * time.Microsecond)
 	defer tick.Stop()
 	for {
@@ -873,7 +881,7 @@ func runC09Close(k c09CloseCase) (c09CloseObs, error) {
 	case <-time.After(c09Watchdog):
 	}
 	o.ops = true
-	wd := time.After(c09Watchdog)
+	wd := c09After(c09Watchdog)
 	for i := 0; i < k.inflight; i++ {
 		select {
 		case <-opRes:
@@ -1032,7 +1040,7 @@ func runC09Stop(k c09StopCase) (c09StopObs, error) {
 	case <-time.After(c09Watchdog):
 	}
 	o.done = true
-	wd := time.After(c09Watchdog)
+	wd := c09After(c09Watchdog)
 	mu.Lock()
 	ds := append([]<-chan struct{}(nil), dones...)
 	n := nops
@@ -1188,7 +1196,7 @@ func runC09(a runArgs) error {
 	e.ShardSize = 400
 	e.Rule = "watchdog runs of the real client/server code: (transport: in-memory udp, tcp + real tcp/client.Session over a scripted net.Conn, udp + real dtls/server.Session over a scripted net.Conn, udp.Dial over loopback) x operation (request, observe, observation cancel, ping, confirmable / non-confirmable one-way write) x interruption point (before the call, on the wire, after an empty ACK, mid block-wise, queued behind the endpoint limit / total limit / NSTART) x peer behaviour (silence, garbage, unrelated well-formed messages) x trigger (cancel, deadline, local Close, peer close, none = proper answer as control); discovery on a started / not yet started server; 2-8 concurrent Close calls with 0-3 operations in flight and 1-4 on-close callbacks on the three real session types; 2-8 concurrent Server.Stop calls with server-initiated operations in flight (udp and tcp server). Distinct = distinct scenario; non-trivial = the operation is blocked in a wait when the trigger fires (every scenario except the non-confirmable write), or a close/stop run with at least one callback."
 	if os.Getenv("HX_CONFIRM") != "" {
-		c09Watchdog = 15 * time.Second
+		c09Watchdog = 10 * time.Second
 	}
 	thorough := a.tier == "thorough"
 	if thorough {
